@@ -311,9 +311,13 @@ def run_case(case):
         try:
             if route.startswith("everystep"):
                 clip = route.endswith("clip")
-                solve = test_util.solve_adaptive_save_every_step(solver=rec, error=rerr, clip_dt=clip)
+                # the repository's save-every-step utility rebuilt with bounded loops (its rejection loop can livelock
+                # under clipping, finding D15; an unbounded eager loop would hang the check)
+                solve = configs.save_every_step(rec, rerr, clip_dt=clip, while_loop=record.make_while(log, max_iter=200), jit=False, max_steps=400)
                 with jax.disable_jit():
                     sol = solve(cfg["prior"], t0, T1, atol=case["tol"], rtol=case["tol"], dt0=case["dt0"], damp=case["damp"])
+                if sol is None:
+                    raise record.BudgetExceeded("save-every-step outer budget")
             else:
                 r = np.random.default_rng(case["seedc"])
                 clip = bool(case.get("clip", case["seedc"] % 2))
